@@ -1,31 +1,87 @@
 """C30 — the textx CLI reports outcomes and passes generator arguments faithfully."""
 import json
+import os
 from vt import core
 from vt.main import decide
 from translate import cli_tr
 
 NAMES = ["alpha", "my-flag", "a-b-c", "x_y", "out-dir2", "k", "dry-run"]
 VALUES = ["v1", "'quoted'", '"dq"', "some-val", "a_b", "7", "'", "x'y"]
-VALID = "model a item x; item y;"
-INVALID = ["model a item x item y;", "model a\nitem x;\n item ;", "modle a"]
-ERRPOS = [(1, 16), (3, 7), (1, 1)]
-EXT = {0: ".c30x", 1: ".c30y"}
+# languages: 0 = c30lang (*.c30x, items are 'item'), 1 = c30other (*.c30y, items are 'entry'), 2 = "any" (the --grammar language)
+EXT = {0: ".c30x", 1: ".c30y", None: ".c30z"}
+LANGNAMES = {0: ["c30lang", "C30Lang"], 1: ["c30other", "C30OTHER"]}
+# file contents: text, and for every meta-model (language 0, language 1, --grammar g.tx, --grammar g.tx -i) None = valid or the error position
+KINDS = {
+    "v0": ("model a item x; item y;", {"0": None, "1": (1, 9), "g": None, "gi": None}),
+    "v1": ("model a entry x;", {"0": (1, 9), "1": None, "g": (1, 9), "gi": (1, 9)}),
+    "vu": ("MODEL a ITEM x;", {"0": (1, 1), "1": (1, 1), "g": (1, 1), "gi": None}),
+    "b0": ("model a item x item y;", {"0": (1, 16), "1": (1, 9), "g": (1, 16), "gi": (1, 16)}),
+    "b1": ("model a\nitem x;\n item ;", {"0": (3, 7), "1": (2, 1), "g": (3, 7), "gi": (3, 7)}),
+    "b2": ("modle a", {"0": (1, 1), "1": (1, 1), "g": (1, 1), "gi": (1, 1)}),
+}
+GRAMMAR_TX = "Model: 'model' name=ID items*=Item; Item: 'item' name=ID ';';"
 
 
 def norm(s):
     return s.replace("-", "_")
 
 
-def gen_case(r, i):
-    nfiles = r.weighted([(1, 6), (2, 3), (3, 1)])
+def gen_mode(r):
+    m = r.weighted([("perfile", 6), ("language", 2), ("grammar", 2)])
+    if m == "language":
+        l = r.below(2)
+        return {"m": m, "l": l, "spelled": r.choice(LANGNAMES[l])}
+    if m == "grammar":
+        return {"m": m, "ic": r.chance(0.5), "flag": r.choice(["-i", "--ignore-case"])}
+    return {"m": m}
+
+
+def mode_argv(mode):
+    if mode["m"] == "language":
+        return ["--language", mode["spelled"]]
+    if mode["m"] == "grammar":
+        return ["--grammar", "g.tx"] + ([mode["flag"]] if mode["ic"] else [])
+    return []
+
+
+def mmkey(mode, x):
+    """Which meta-model parses file x: '0'/'1' (a registered language), 'g'/'gi' (--grammar), None (no language for the file)."""
+    if mode["m"] == "language":
+        return str(mode["l"])
+    if mode["m"] == "grammar":
+        return "gi" if mode["ic"] else "g"
+    return None if x["lang"] is None else str(x["lang"])
+
+
+def lang_of(mode, x):
+    return 2 if mode["m"] == "grammar" else (mode["l"] if mode["m"] == "language" else x["lang"])
+
+
+def err_of(mode, x):
+    k = mmkey(mode, x)
+    return None if k is None else KINDS[x["kind"]][1][k]
+
+
+def gen_files(r, prefix, mode, pbad):
+    nfiles = r.weighted([(1, 5), (2, 4), (3, 1)])
     files, info = {}, []
     for k in range(nfiles):
-        lang = 0 if r.chance(0.7) else 1
-        name = "m%d%s" % (k, EXT[lang])
-        bad = r.chance(0.15)
-        j = r.below(len(INVALID))
-        files[name] = INVALID[j] if bad else VALID
-        info.append({"name": name, "valid": not bad, "lang": lang, "err": ERRPOS[j] if bad else None})
+        lang = r.weighted([(0, 6), (1, 4), (None, 1)])
+        name = "%s%d%s" % (prefix, k, EXT[lang])
+        if r.chance(pbad):
+            kind = r.choice(["b0", "b1", "b2", "vu", "v0", "v1"])
+        else:   # mostly a content that is valid for the meta-model that will be used
+            kind = {"0": "v0", "1": "v1", "g": "v0", "gi": r.choice(["v0", "vu"]), None: "v0"}[mmkey(mode, {"lang": lang})]
+        files[name] = KINDS[kind][0]
+        info.append({"name": name, "lang": lang, "kind": kind})
+    if mode["m"] == "grammar":
+        files["g.tx"] = GRAMMAR_TX
+    return files, info
+
+
+def gen_case(r, i):
+    mode = gen_mode(r)
+    files, info = gen_files(r, "m", mode, 0.15)
     toks = []
     nargs = r.weighted([(0, 2), (1, 4), (2, 4), (3, 2), (4, 1)])
     used = []
@@ -36,50 +92,47 @@ def gen_case(r, i):
             toks.append(["--" + n])
         else:
             toks.append(["--" + n, r.choice(VALUES)])
-    ftoks = [[f] for f in files]
+    ftoks = [[x["name"]] for x in info]
     if r.chance(0.7):
         order = ftoks + toks          # the documented shape: files first, then custom arguments
     else:
         order = r.shuffle(ftoks + toks)
     argv_custom = [t for grp in order for t in grp]
     declared = {}
-    for lang in (0, 1):
-        mode = r.weighted([("free", 4), ("exact", 3), ("subset", 2), ("extra_mandatory", 2), ("empty", 1)])
-        if mode == "free":
+    for lang in (0, 1, 2):
+        mode_d = r.weighted([("free", 4), ("exact", 3), ("subset", 2), ("extra_mandatory", 2), ("empty", 1), ("absent", 2 if lang < 2 else 5)])
+        if mode_d == "free":
             declared[lang] = None
-        elif mode == "empty":
+        elif mode_d == "absent":
+            declared[lang] = "absent"
+        elif mode_d == "empty":
             declared[lang] = []
         else:
             names = sorted({norm(n) for n in used}) or [norm(r.choice(NAMES))]
-            if mode == "subset":
+            if mode_d == "subset":
                 names = names[:-1] if len(names) > 1 else names
             decl = [[n, r.chance(0.4)] for n in names]
-            if mode == "extra_mandatory":
+            if mode_d == "extra_mandatory":
                 decl.append(["needed", True])
             declared[lang] = decl
-    argv = ["generate", "--target", "{TARGET}"]
+    argv = ["generate", "--target", "{TARGET}"] + mode_argv(mode)
     if r.chance(0.2):
         argv += ["--overwrite"]
     argv += argv_custom
-    return {"kind": "generate", "argv": argv, "custom": argv_custom, "files": files, "info": info,
+    return {"kind": "generate", "argv": argv, "custom": argv_custom, "files": files, "info": info, "mode": mode,
             "declared": {str(k): v for k, v in declared.items()}}
 
 
 def gen_check_case(r, i):
-    nfiles = r.range(1, 3)
-    files, info = {}, []
-    for k in range(nfiles):
-        lang = 0 if r.chance(0.7) else 1
-        name = "c%d%s" % (k, EXT[lang])
-        bad = r.chance(0.3)
-        j = r.below(len(INVALID))
-        files[name] = INVALID[j] if bad else VALID
-        info.append({"name": name, "valid": not bad, "lang": lang, "err": ERRPOS[j] if bad else None})
-    return {"kind": "check", "argv": ["check"] + list(files), "files": files, "info": info}
+    mode = gen_mode(r)
+    files, info = gen_files(r, "c", mode, 0.3)
+    return {"kind": "check", "argv": ["check"] + mode_argv(mode) + [x["name"] for x in info], "files": files, "info": info, "mode": mode}
 
 
 def doc_generate(case):
-    """Documented behaviour, written independently of the Coq model (property oracle)."""
+    """Documented behaviour, written independently of the Coq model (property oracle).
+    Returns exit status, generator calls (file, language of the generator, language of the meta-model), custom
+    arguments, and the file that stopped the run with the reason."""
     args = list(case["custom"])
     files, d = [], {}
     while args:
@@ -92,41 +145,85 @@ def doc_generate(case):
         else:
             files.append(m)
     calls = []
-    if not files:
-        return 1, calls, d
     info = {x["name"]: x for x in case["info"]}
-    for f in files:
-        x = info.get(f)
-        if x is None or not x["valid"]:
-            return 1, calls, d
-        decl = case["declared"][str(x["lang"])]
+    mode, reg = case["mode"], dict(case["declared"], **{"3": "absent"})
+    if not files:
+        # only custom arguments: one call without a model, for the given language or "textx" (3)
+        if not d or mode["m"] == "grammar":      # --grammar: the language is "any", which has no registered meta-model
+            return 1, calls, d, ("", "nomodel")
+        l = mode["l"] if mode["m"] == "language" else 3
+        gl = l
+        if reg[str(l)] == "absent":
+            if mode["m"] == "perfile" and reg["2"] != "absent":
+                gl = 2
+            else:
+                return 1, calls, d, ("", "nogenerator")
+        decl = reg[str(gl)]
         if decl is not None:
             if any(m and n not in d for n, m in decl):
-                return 1, calls, d
+                return 1, calls, d, ("", "mandatory")
             if decl and any(k not in [n for n, _ in decl] for k in d):
-                return 1, calls, d
-        calls.append((f, x["lang"]))
-    return 0, calls, d
+                return 1, calls, d, ("", "undeclared")
+        return 0, [("", gl, l)], d, None
+    for f in files:
+        x = info.get(f)
+        if x is None:
+            return 1, calls, d, (f, "missing")
+        l = lang_of(mode, x)
+        if l is None:
+            return 1, calls, d, (f, "nolang")
+        if err_of(mode, x) is not None:
+            return 1, calls, d, (f, "syntax")
+        gl = l
+        if reg[str(l)] == "absent":
+            if mode["m"] == "perfile" and reg["2"] != "absent":
+                gl = 2
+            else:
+                return 1, calls, d, (f, "nogenerator")
+        decl = reg[str(gl)]
+        if decl is not None:
+            if any(m and n not in d for n, m in decl):
+                return 1, calls, d, (f, "mandatory")
+            if decl and any(k not in [n for n, _ in decl] for k in d):
+                return 1, calls, d, (f, "undeclared")
+        calls.append((f, gl, l))
+    return 0, calls, d, None
+
+
+def coq_mode(mode):
+    return {"perfile": "PerFile", "grammar": "FromGrammar"}.get(mode["m"]) or "(Explicit %d)" % mode["l"]
+
+
+def coq_info(case):
+    out = []
+    for x in case["info"]:
+        v = KINDS[x["kind"]][1]
+        g = v["gi" if case["mode"].get("ic") else "g"] is None
+        out.append("(%s, {| f_lang := %s; f_valid := fun l => match l with 0%%nat => %s | 1%%nat => %s | _ => %s end |})" % (
+            core.coq_str(x["name"]), "None" if x["lang"] is None else "(Some %d%%nat)" % x["lang"],
+            core.coq_bool(v["0"] is None), core.coq_bool(v["1"] is None), core.coq_bool(g)))
+    return core.coq_list(out)
 
 
 def coq_case(case):
     args = core.coq_list([core.coq_str(a) for a in case["custom"]])
-    info = core.coq_list(["(%s, (%s, %d%%nat))" % (core.coq_str(x["name"]), core.coq_bool(x["valid"]), x["lang"]) for x in case["info"]])
 
     def decl(v):
-        if v is None:
+        if v == "absent":
             return "None"
-        return "(Some %s)" % core.coq_list(["{| pname := %s; pmandatory := %s |}" % (core.coq_str(n), core.coq_bool(m)) for n, m in v])
-    d = "(fun l => match l with 0%%nat => %s | _ => %s end)" % (decl(case["declared"]["0"]), decl(case["declared"]["1"]))
-    return "show_gen (generate %s %s %s)" % (args, info, d)
+        if v is None:
+            return "(Some None)"
+        return "(Some (Some %s))" % core.coq_list(["{| pname := %s; pmandatory := %s |}" % (core.coq_str(n), core.coq_bool(m)) for n, m in v])
+    d = "(fun l => match l with 0%%nat => %s | 1%%nat => %s | 2%%nat => %s | _ => None end)" % tuple(decl(case["declared"][k]) for k in "012")
+    return "show_gen (generate_cmd %s %s %s %s)" % (args, coq_info(case), coq_mode(case["mode"]), d)
 
 
 IMPORTS = """From TxV Require Import Core.Base Core.Show Gen.SrcCli Model.Cli.
 Open Scope string_scope.
 Definition show_aval (v : aval) : string := match v with ATrue => "True" | AStr s => "s:" ++ show_str s end.
-Definition show_gen (r : nat * list (list N * nat) * list (list N * aval)) : string :=
+Definition show_gen (r : nat * list (list N * nat * nat) * list (list N * aval)) : string :=
   let '(e, calls, d) := r in
-  show_nat e ++ "|" ++ sjoin "," (map (fun c => show_str (fst c) ++ ":" ++ show_nat (snd c)) calls)
+  show_nat e ++ "|" ++ sjoin "," (map (fun c => show_str (fst (fst c)) ++ ":" ++ show_nat (snd (fst c)) ++ ":" ++ show_nat (snd c)) calls)
   ++ "|" ++ sjoin "," (map (fun kv => show_str (fst kv) ++ "=" ++ show_aval (snd kv)) d)."""
 
 
@@ -135,17 +232,25 @@ def canon(exit_code, calls, d):
                          ",".join("%s=%s" % (core.canon_text(k), "True" if v is True else "s:" + core.canon_text(v)) for k, v in d.items()))
 
 
+def corpus_cases():
+    out = []
+    cdir = os.path.join(core.VERIF, "corpus", "C30")
+    for fn in sorted(os.listdir(cdir)) if os.path.isdir(cdir) else []:
+        j = json.load(open(os.path.join(cdir, fn)))
+        j.pop("note", None)
+        out.append(j)
+    return out
+
+
+def located(log, name, pos):
+    loc = "%s:%d:%d:" % (name, pos[0], pos[1])
+    return any(l.startswith("ERROR") and loc in l for l in log), loc
+
+
 def run(chk):
     chk.prove([cli_tr.translate])
     n = 1500 if chk.thorough else 320
-    cases = []
-    # corpus first
-    cases.append({"kind": "generate", "argv": ["generate", "--target", "{TARGET}", "m0.c30x", "--my-flag"], "custom": ["m0.c30x", "--my-flag"],
-                  "files": {"m0.c30x": VALID}, "info": [{"name": "m0.c30x", "valid": True, "lang": 0, "err": None}], "declared": {"0": None, "1": None}})
-    cases.append({"kind": "generate", "argv": ["generate", "--target", "{TARGET}", "m0.c30x", "m1.c30y", "--p", "1"], "custom": ["m0.c30x", "m1.c30y", "--p", "1"],
-                  "files": {"m0.c30x": VALID, "m1.c30y": VALID},
-                  "info": [{"name": "m0.c30x", "valid": True, "lang": 0, "err": None}, {"name": "m1.c30y", "valid": True, "lang": 1, "err": None}],
-                  "declared": {"0": None, "1": [["p", True], ["needed", True]]}})
+    cases = corpus_cases()      # corpus first
     for i in range(n):
         r = chk.rng.split(i)
         cases.append(gen_case(r, i) if i % 5 else gen_check_case(r, i))
@@ -163,17 +268,22 @@ def run(chk):
         disagreements.append({"case": "coq evaluation", "model": errs[:2]})
     for c, mv in zip(gens, vals):
         o = res[id(c)]
-        impl_calls = [(x["model"], c["info"][[i["name"] for i in c["info"]].index(x["model"])]["lang"] if x["gen"].endswith(str(0)) or True else 0) for x in o["calls"]]
-        # generator identity: the runner tags calls with the language whose generator ran
-        impl_calls = [(x["model"], x["lang"]) for x in o["calls"]]
+        # the runner tags calls with the language whose generator ran and the meta-model that was handed over
+        impl_calls = [(x["model"] or "", x["lang"], x["mm"]) for x in o["calls"]]
         kw = o["calls"][0]["kwargs"] if o["calls"] else None
-        e_doc, calls_doc, d_doc = doc_generate(c)
-        chk.count(json.dumps([c["custom"], c["declared"], [x["valid"] for x in c["info"]]]), nontrivial=len(c["custom"]) > len(c["files"]))
+        e_doc, calls_doc, d_doc, stop = doc_generate(c)
+        chk.count(json.dumps([c["custom"], c["declared"], c["mode"], [(x["lang"], x["kind"]) for x in c["info"]]]),
+                  nontrivial=len(c["custom"]) > len(c["info"]) or len(c["info"]) > 1 or c["mode"]["m"] != "perfile")
         chk.stat("generate exit=%d" % o["exit"])
+        chk.stat("generate mode=" + c["mode"]["m"])
+        if stop:
+            chk.stat("generate stopped by " + stop[1])
+        if len({lang_of(c["mode"], x) for x in c["info"]}) > 1 and o["exit"] == 0:
+            chk.stat("generate ok over files of several languages")
         # correspondence with the Coq model
         if mv is not None:
             m_exit, m_calls, m_d = mv.split("|")
-            impl_s = "%d|%s" % (o["exit"], ",".join("%s:%d" % (core.canon_text(f), l) for f, l in impl_calls))
+            impl_s = "%d|%s" % (o["exit"], ",".join("%s:%d:%d" % (core.canon_text(f), gl, l) for f, gl, l in impl_calls))
             ok = impl_s == m_exit + "|" + m_calls
             if ok and kw is not None:
                 ok = canon(0, [], kw).split("|")[2] == m_d
@@ -185,41 +295,64 @@ def run(chk):
             bad = "unexpected exception " + o["exc"]
         elif o["exit"] != e_doc:
             bad = "exit status %d, documented %d" % (o["exit"], e_doc)
+        elif [(f, gl) for f, gl, _ in impl_calls] != [(f, gl) for f, gl, _ in calls_doc]:
+            bad = "generator calls (file, language of the generator) %r differ from the documented ones %r" % ([(f, gl) for f, gl, _ in impl_calls], [(f, gl) for f, gl, _ in calls_doc])
         elif impl_calls != calls_doc:
-            bad = "generator calls differ from the documented ones"
+            bad = "meta-models handed to the generators differ from the documented ones: %r vs %r" % (impl_calls, calls_doc)
         elif any(x["kwargs"] != d_doc for x in o["calls"]):
             bad = "custom arguments passed differ from the documented ones: %r vs %r" % (o["calls"][0]["kwargs"], d_doc)
+        elif any(x["overwrite"] != ("--overwrite" in c["argv"]) for x in o["calls"]):
+            bad = "--overwrite is not passed through"
+        elif stop and stop[1] == "syntax":
+            x = [i for i in c["info"] if i["name"] == stop[0]][0]
+            found, loc = located(o["log"], stop[0], err_of(c["mode"], x))
+            if not found:
+                bad = "no located error message (%s) in %r" % (loc, o["log"])
+        elif o["exit"] == 1 and not any(l.startswith("ERROR") for l in o["log"]):
+            bad = "exit status 1 without an error message"
         if bad:
-            tags = []
-            failures.append({"case": c, "impl": o, "model": mv, "what": bad, "tags": tags})
+            failures.append({"case": c, "impl": o, "model": mv, "what": bad, "tags": []})
         if chk.cov["evaluations"] % 60 == 3:
             chk.sample({"argv": c["argv"], "declared": c["declared"], "impl": {"exit": o["exit"], "calls": o["calls"]}})
     # check command
     checks = [c for c in cases if c["kind"] == "check"]
-    cvals, cerrs = core.coq_eval("C30c", IMPORTS, ["show_nat (check_exit %s)" % core.coq_list([core.coq_bool(x["valid"]) for x in c["info"]]) for c in checks])
+    cvals, cerrs = core.coq_eval("C30c", IMPORTS, ["show_nat (check_cmd %s %s %s)" % (coq_mode(c["mode"]), coq_info(c), core.coq_list([core.coq_str(x["name"]) for x in c["info"]]))
+                                                   for c in checks])
+    if cerrs:
+        disagreements.append({"case": "coq evaluation (check)", "model": cerrs[:2]})
     for c, mv in zip(checks, cvals):
         o = res[id(c)]
-        chk.count(json.dumps([c["argv"], [x["valid"] for x in c["info"]]]), nontrivial=True)
+        chk.count(json.dumps([c["argv"], [(x["lang"], x["kind"]) for x in c["info"]]]), nontrivial=True)
         chk.stat("check exit=%d" % o["exit"])
+        chk.stat("check mode=" + c["mode"]["m"])
         if mv is None or str(o["exit"]) != mv or o["exc"]:
             disagreements.append({"case": c, "impl": o, "model": mv})
-        first_bad = next((x for x in c["info"] if not x["valid"]), None)
+        first_bad = next((x for x in c["info"] if lang_of(c["mode"], x) is None or err_of(c["mode"], x) is not None), None)
         want = 1 if first_bad else 0
         bad = None
         if o["exc"]:
             bad = "unexpected exception " + o["exc"]
         elif o["exit"] != want:
             bad = "check exit %d, documented %d" % (o["exit"], want)
-        elif first_bad:
-            loc = "%s:%d:%d:" % (first_bad["name"], first_bad["err"][0], first_bad["err"][1])
-            if not any(l.startswith("ERROR") and loc in l for l in o["log"]):
+        elif first_bad and lang_of(c["mode"], first_bad) is not None:
+            found, loc = located(o["log"], first_bad["name"], err_of(c["mode"], first_bad))
+            if not found:
                 bad = "no located error message (%s) in %r" % (loc, o["log"])
+        elif first_bad and not any(l.startswith("ERROR") and first_bad["name"] in l for l in o["log"]):
+            bad = "no error message naming %s in %r" % (first_bad["name"], o["log"])
+        elif not first_bad and [l for l in o["log"] if l.endswith(": OK.")] != [l for l in o["log"] if l.endswith(": OK.")][:len(c["info"])] or \
+                (not first_bad and len([l for l in o["log"] if l.endswith(": OK.")]) != len(c["info"])):
+            bad = "not every file is reported OK: %r" % o["log"]
         if bad:
             failures.append({"case": c, "impl": o, "what": bad, "tags": []})
-    chk.cov["rule"] = ("random `textx generate` command lines (1-3 model files of two registered languages, valid/invalid, 0-4 custom --name arguments with/without "
-                       "dashes, valued/bare, files-first or shuffled; per-language generators free-form or with declared mandatory/optional parameters) and "
-                       "`textx check` runs, through click's CliRunner on the real command group; non-trivial = at least one custom argument (generate) / any (check); "
-                       "distinct by (arguments, declarations, validity)")
+    chk.cov["rule"] = ("random `textx generate` command lines (1-3 model files of two registered languages with different grammars or of no language, contents valid for "
+                       "one/the other/only case-insensitively/none; language deduced per file, or --language NAME (any spelling), or --grammar g.tx with/without "
+                       "-i/--ignore-case; 0-4 custom --name arguments with/without dashes, valued/bare, files-first or shuffled; per-language generators (and one for "
+                       "'any') absent, free-form or with declared mandatory/optional parameters) and `textx check` runs with the same options, through click's CliRunner on "
+                       "the real command group; non-trivial = a custom argument, several files or an explicit language/grammar (generate) / any (check); "
+                       "distinct by (arguments, declarations, options, file languages and contents)")
     chk.assumptions += ["translator cli_tr.py; click passes unknown options through in order (validated end-to-end by the correspondence)",
-                        "a generator registered with an empty parameter list is treated as free-form (as the code does)"]
+                        "a generator registered with an empty parameter list is treated as free-form (as the code does)",
+                        "which files parse with which meta-model (f_valid) and which language a file name belongs to (f_lang) are inputs of the model, computed by the harness from "
+                        "the fixed test grammars; language and generator registries are the real ones, filled per case"]
     decide(chk, failures, disagreements)
